@@ -5,6 +5,8 @@ use crate::log::Violation;
 use std::collections::BTreeMap;
 
 pub mod common;
+pub mod c14;
+pub mod c18;
 pub mod selfcheck;
 
 #[derive(Clone, Copy, Debug, PartialEq, Eq)]
@@ -85,7 +87,7 @@ pub trait Property: Sync + Send {
 }
 
 pub fn all() -> Vec<Box<dyn Property>> {
-    vec![Box::new(selfcheck::SelfCheck)]
+    vec![Box::new(selfcheck::SelfCheck), Box::new(c18::C18), Box::new(c14::C14)]
 }
 
 pub fn by_id(id: &str) -> Option<Box<dyn Property>> {
